@@ -166,6 +166,10 @@ class Accounting:
             # path ends at a loop head: every loop-carried integer accumulator must have advanced by Σ Δ|buf|
             head = p.end[1]
             accs = self.accumulators()
+            if not accs and (total[0] or total[1]) and not self.measures_by_len():
+                # bytes are appended on the way to a loop head, but nothing that flows into the returned count moves
+                self.problems.append(('mismatch', f'bytes are appended on a path reaching the loop head bb{head} ({lin_show(total)}) but no length accumulator '
+                                      f'that flows into the returned count advances on it', head))
             for l in accs:
                 v = p.store.get(('L', l))
                 if v is None:
@@ -183,6 +187,26 @@ class Accounting:
                 if diff[0] or diff[1]:
                     self.problems.append(('mismatch', f'on a path reaching the loop head bb{head} the length accumulator '
                                           f'`{self.body.name_of(l) or l}` advances by {lin_show(adv)} but the bytes appended = {lin_show(total)}', head))
+
+    def measures_by_len(self):
+        """the returned count is computed from a buffer-length measurement (len() after - len() before) on some return path"""
+        if hasattr(self, '_mbl'):
+            return self._mbl
+        self._mbl = False
+        body = self.body
+        loops = natural_loops(body)
+        ex = Explorer(body, max_paths=self.max_paths)
+        for s in [0] + sorted(loops):
+            for p in ex.explore(start=s, stop=set(loops)):
+                if p.end[0] != 'return':
+                    continue
+                m = self.measure(p.ret)
+                if m is None:
+                    continue
+                for x in subterms(m):
+                    if x[0] == 'call' and called(x[1], 'Vec::len', 'slice::len') or x[0] == 'len':
+                        self._mbl = True
+        return self._mbl
 
     def accumulators(self):
         """Locals that are loop-carried and flow additively into the returned measure."""
